@@ -117,7 +117,7 @@ func (x *Exec) staticCall(fr *Frame, st *State, in ssa.Instruction, fn *ssa.Func
 		x.callByContract(fr, st, in, fn, ct, nil, args, site, k)
 		return
 	}
-	if fn.Synthetic != "" && len(fn.Blocks) > 0 && !x.onStack(fr, fn) && (strings.HasPrefix(fn.Synthetic, "wrapper") || strings.HasPrefix(fn.Synthetic, "bound") || strings.HasPrefix(fn.Synthetic, "thunk") || strings.HasPrefix(fn.Synthetic, "instan")) {
+	if fn.Synthetic != "" && len(fn.Blocks) > 0 && !x.onStack(fr, fn) && (strings.HasPrefix(fn.Synthetic, "wrapper") || strings.HasPrefix(fn.Synthetic, "bound") || strings.HasPrefix(fn.Synthetic, "thunk") || (strings.HasPrefix(fn.Synthetic, "instan") && fn.Origin() != nil && x.prog.moduleFunc(fn.Origin()))) {
 		// compiler-generated wrapper (promoted method, bound method, instantiation): always entered
 		nf := x.newFrame(fn, fr)
 		nf.depth = fr.depth // wrappers do not count towards the inlining depth
